@@ -69,7 +69,7 @@ def make_prior(kind="default", poly_trend=1, n_offsets=0, sigma_K0=30.0, P0_days
     return out
 
 
-def make_data(n=5, layout="short", err="hetero", unit="km/s", t_ref=None, seed=0, n_surveys=1):
+def make_data(n=5, layout="short", err="hetero", unit="km/s", t_ref=None, seed=0, n_surveys=1, mixed_units=False):
     """Returns (data or list of data, plain dict t, y, sig [km/s], t_ref, labels)."""
     import astropy.units as u
     from astropy.time import Time
@@ -109,7 +109,12 @@ def make_data(n=5, layout="short", err="hetero", unit="km/s", t_ref=None, seed=0
         for k in range(n_surveys):
             sl = slice(bounds[k], bounds[k + 1])
             labels[sl] = k
-            data.append(tj.RVData(Time(t[sl], format="mjd", scale="tcb"), y[sl] * f * uu, sig[sl] * f * uu))
+            if mixed_units and k % 2 == 1:
+                # this survey is delivered in another (equivalent) unit than the first one; errors in yet another
+                uk, fk = (u.m / u.s, 1000.0) if unit == "km/s" else (u.km / u.s, 1.0)
+                data.append(tj.RVData(Time(t[sl], format="mjd", scale="tcb"), y[sl] * fk * uk, (sig[sl] * 1e5) * u.cm / u.s))
+            else:
+                data.append(tj.RVData(Time(t[sl], format="mjd", scale="tcb"), y[sl] * f * uu, sig[sl] * f * uu))
         tr = float(t.min())
     return data, dict(t=t, y=y, sig=sig, t_ref=tr, labels=labels, unit=unit, factor=f)
 
